@@ -209,6 +209,20 @@ OCT [0-7]
   throw std::runtime_error ("string literal not terminated");
 }
 
+<STRING_EMBEDDED>"/*"([^*]|"*"+[^*/])*"*"+"/" |
+<STRING_EMBEDDED>("//"|"#")[^\n]* {
+  // A comment in the embedded expression: brackets, quotes and %( %)
+  // inside it mean nothing.  Inside a nested string literal, on the other
+  // hand, these are ordinary characters.
+  if (yylval->f->in_string)
+    {
+      yylval->f->str += *yyget_text (yyscanner);
+      yyless (1);
+    }
+  else
+    yylval->f->str += yyget_text (yyscanner);
+}
+
 <STRING_EMBEDDED>[\(\[\{] {
   yylval->f->str += *yyget_text (yyscanner);
   if (! yylval->f->in_string)
